@@ -67,6 +67,170 @@ theorem flip_eq (s : Strand) : strandReverse s = flipStrand s := by cases s <;> 
 
 theorem canon_valid (l : Loc) (h : l.Canon) : ∀ b ∈ l.blocks, b.1 ≤ b.2 := (blocksValid_iff _).mp h.2.1
 
+/-! ### shift_position -/
+
+theorem mkSingleP_eq (s e : Int) (st : Strand) (par : PKey) :
+    mkSingleP s e st par = if 0 ≤ s ∧ s ≤ e then
+      (match parentSeqLen par with
+       | some n => if e > n then .error .InvalidPosition else .ok (.single (s.toNat, e.toNat) st, par)
+       | none => .ok (.single (s.toNat, e.toNat) st, par))
+      else .error .InvalidPosition := by
+  unfold mkSingleP mkSingle checkEnd
+  split
+  · cases parentSeqLen par with
+    | none => rfl
+    | some n => simp only []; split <;> rfl
+  · rfl
+
+theorem shift_single (b : Blk) (st : Strand) (par : PKey) (hb : b.1 ≤ b.2) (k : Int) :
+   okShift (.single b st, par) k (ans (shiftP (.single b st, par) k)) = true := by
+  simp only [okShift, spanOf_single, shiftP, parLen_eq, mkSingleP_eq]
+  by_cases h0 : (b.1 : Int) + k < 0
+  · have : ¬ ((0:Int) ≤ (b.1 : Int) + k ∧ (b.1 : Int) + k ≤ (b.2 : Int) + k) := by omega
+    rw [if_neg this]
+    simp [h0]
+  · have h1 : ((0:Int) ≤ (b.1 : Int) + k ∧ (b.1 : Int) + k ≤ (b.2 : Int) + k) := by omega
+    rw [if_pos h1]
+    have hres : ∀ n, parentSeqLen par = some n → (b.2 : Int) + k ≤ n →
+        resultOk (Location.single ((↑b.fst + k).toNat, (↑b.snd + k).toNat) st, par) par = true := by
+      intro n hn hle
+      apply resultOk_mk _ par (by simp)
+      · simp [wfLocation]; omega
+      · intro m hm x hx
+        simp only [locationBlocks, List.mem_singleton] at hx
+        subst hx
+        rw [hn] at hm; cases hm
+        simp only; omega
+    cases hn : parentSeqLen par with
+    | none =>
+      simp [h0, locationBlocks, locationStrand?]
+      apply resultOk_mk _ par (by simp)
+      · simp [wfLocation]; omega
+      · intro m hm; rw [hn] at hm; cases hm
+    | some n =>
+      simp only [h0, decide_false, Bool.false_or]
+      by_cases h2 : (b.2 : Int) + k > n
+      · simp [h2]
+      · simp [h2, locationBlocks, locationStrand?]
+        exact hres n hn (by omega)
+
+theorem mkCompoundP_eq (bs : List Blk) (st : Strand) (par : PKey) (hne : bs ≠ []) (hv : ∀ b ∈ bs, b.1 ≤ b.2) :
+    mkCompoundP bs st par =
+      (match parentSeqLen par with
+       | some n => if maxEndOf bs > n then .error .InvalidPosition else .ok (.compound ⟨sortBlocks st bs, st⟩, par)
+       | none => .ok (.compound ⟨sortBlocks st bs, st⟩, par)) := by
+  unfold mkCompoundP
+  rw [mkCompoundLoc_ok st hne hv]
+  have e : maxEnd (sortBlocks st bs) = maxEndOf bs := by
+    rw [← maxEndOf_eq_maxEnd, maxEndOf_perm (sortBlocks_perm st bs)]
+  simp only [ok_bind, e]
+  unfold checkEnd
+  cases parentSeqLen par with
+  | none => rfl
+  | some n =>
+    simp only []
+    by_cases h : maxEndOf bs > n
+    · have h' : ((maxEndOf bs : Nat) : Int) > (n : Int) := by omega
+      simp only [h, h', if_true]; rfl
+    · have h' : ¬ ((maxEndOf bs : Nat) : Int) > (n : Int) := by omega
+      simp only [h, h', if_false]; rfl
+
+theorem maxEndOf_mem (bs : List Blk) (hne : bs ≠ []) : ∃ b ∈ bs, b.2 = maxEndOf bs := by
+  induction bs with
+  | nil => exact absurd rfl hne
+  | cons c cs ih =>
+    by_cases hcs : cs = []
+    · subst hcs; exact ⟨c, by simp, by simp [maxEndOf]⟩
+    · obtain ⟨b, hb, he⟩ := ih hcs
+      simp only [maxEndOf]
+      by_cases h : c.2 ≤ maxEndOf cs
+      · exact ⟨b, List.mem_cons_of_mem _ hb, by omega⟩
+      · exact ⟨c, by simp, by omega⟩
+
+theorem shift_compound (la : Loc) (par : PKey) (hc : la.Canon) (k : Int) :
+   okShift (.compound la, par) k (ans (shiftP (.compound la, par) k)) = true := by
+  obtain ⟨f, rest, hbl, hspan, _⟩ := spanOf_compound la hc
+  have hv := canon_valid la hc
+  have hsorted : sortedBy (blkLe la.strand) (f :: rest) = true := by rw [← hbl]; exact hc.2.2
+  have hmin : ∀ x ∈ la.blocks, f.1 ≤ x.1 := by
+    intro x hx
+    rw [hbl] at hx
+    rcases List.mem_cons.mp hx with rfl | hx
+    · exact Nat.le_refl _
+    · exact sortedBy_head_le la.strand f rest hsorted x hx
+  simp only [okShift, hspan, shiftP, parLen_eq]
+  by_cases h0 : (f.1 : Int) + k < 0
+  · have : la.blocks.any (fun b => decide ((b.1 : Int) + k < 0)) = true := by
+      rw [List.any_eq_true]; exact ⟨f, by simp [hbl], by simpa using h0⟩
+    simp [h0, this, bind, Except.bind]
+    rfl
+  · have hany : la.blocks.any (fun b => decide ((b.1 : Int) + k < 0)) = false := by
+      rw [Bool.eq_false_iff]; intro h
+      rw [List.any_eq_true] at h
+      obtain ⟨x, hx, h1⟩ := h
+      have := hmin x hx
+      simp at h1; omega
+    have hge : ∀ x ∈ la.blocks, 0 ≤ (x.1 : Int) + k := by
+      intro x hx; have := hmin x hx; omega
+    have hne' : la.blocks.map (fun b : Blk => (((b.1 : Int) + k).toNat, ((b.2 : Int) + k).toNat)) ≠ [] := by
+      simp [hbl]
+    have hv' : ∀ b ∈ la.blocks.map (fun b : Blk => (((b.1 : Int) + k).toNat, ((b.2 : Int) + k).toNat)), b.1 ≤ b.2 := by
+      intro b hb
+      obtain ⟨x, hx, rfl⟩ := List.mem_map.mp hb
+      have := hv x hx
+      simp only; omega
+    have hmax : ∀ n : Nat, maxEndOf (la.blocks.map (fun b : Blk => (((b.1 : Int) + k).toNat, ((b.2 : Int) + k).toNat))) > n ↔
+        ((maxEnd la.blocks : Nat) : Int) + k > n := by
+      intro n
+      rw [← maxEndOf_eq_maxEnd]
+      have h1 := maxEndOf_le_iff (la.blocks.map (fun b : Blk => (((b.1 : Int) + k).toNat, ((b.2 : Int) + k).toNat))) n
+      have h2 : ((maxEndOf la.blocks : Nat) : Int) + k ≤ n ↔ ∀ b ∈ la.blocks, (b.2 : Int) + k ≤ n := by
+        constructor
+        · intro h b hb
+          have := le_maxEndOf_of_mem _ b hb
+          omega
+        · intro h
+          obtain ⟨b, hb, he⟩ := maxEndOf_mem la.blocks hc.1
+          have := h b hb
+          omega
+      have h3 : (∀ b ∈ la.blocks.map (fun b : Blk => (((b.1 : Int) + k).toNat, ((b.2 : Int) + k).toNat)), b.2 ≤ n) ↔
+          ∀ b ∈ la.blocks, (b.2 : Int) + k ≤ n := by
+        constructor
+        · intro h b hb
+          have := h _ (List.mem_map.mpr ⟨b, hb, rfl⟩)
+          have := hge b hb
+          have := hv b hb
+          simp only at *; omega
+        · intro h b hb
+          obtain ⟨x, hx, rfl⟩ := List.mem_map.mp hb
+          have := h x hx
+          simp only; omega
+      rw [h3, ← h2] at h1
+      omega
+    rw [mkCompoundP_eq _ _ _ hne' hv']
+    simp only [hany, Bool.false_eq_true, if_false, h0, decide_false, Bool.false_or]
+    have hres : (∀ n, parentSeqLen par = some n → ¬ ((maxEnd la.blocks : Nat) : Int) + k > n) →
+        resultOk (.compound ⟨sortBlocks la.strand (la.blocks.map (fun b : Blk => (((b.1 : Int) + k).toNat, ((b.2 : Int) + k).toNat))), la.strand⟩, par) par = true := by
+      intro hh
+      refine resultOk_mk _ par (by simp) (wf_compound_sort _ _ hne' hv') ?_
+      intro n hn b hb
+      have := mt (hmax n).mp (hh n hn)
+      have h4 : maxEndOf (la.blocks.map (fun b : Blk => (((b.1 : Int) + k).toNat, ((b.2 : Int) + k).toNat))) ≤ n := by omega
+      exact (maxEndOf_le_iff _ _).mp h4 b ((sortBlocks_perm _ _).mem_iff.mp hb)
+    cases hn : parentSeqLen par with
+    | none =>
+      simp only [ans_ok, locationBlocks, locationStrand?, sort_plus_sort, beq_self_eq_true, Bool.and_true]
+      exact hres (fun n h => by rw [hn] at h; cases h)
+    | some n =>
+      simp only []
+      by_cases h2 : ((maxEnd la.blocks : Nat) : Int) + k > n
+      · have h3 := (hmax n).mpr h2
+        simp [h2, h3]
+      · have h3 := mt (hmax n).mp h2
+        simp only [h2, h3, if_false, decide_false, Bool.false_eq_true, ans_ok, locationBlocks, locationStrand?,
+          sort_plus_sort, beq_self_eq_true, Bool.and_true]
+        exact hres (fun m h => by rw [hn] at h; cases h; exact h2)
+
 end BioCantor.Proofs.Misc
 
 namespace BioCantor.Proofs
@@ -115,5 +279,13 @@ theorem resetStrandP_ok (a : PLoc) (ha : WFP a) (ns : Strand) : okResetStrand a 
     refine resultOk_mk _ par (by simp) (wf_compound_sort _ _ hc.1 (canon_valid la hc)) ?_
     intro n hn b hb
     exact hbd n hn b ((sortBlocks_perm _ _).mem_iff.mp hb)
+
+theorem shiftP_ok (a : PLoc) (ha : WFP a) (k : Int) : okShift a k (ans (shiftP a k)) = true := by
+  obtain ⟨l, par⟩ := a
+  obtain ⟨hwf, hemp, hbd⟩ := ha
+  cases l with
+  | empty => simp [shiftP, okShift, spanOf, locationBlocks]
+  | single b st => exact shift_single b st par hwf k
+  | compound la => exact shift_compound la par hwf k
 
 end BioCantor.Proofs
